@@ -227,7 +227,7 @@ fn main() {
             let f = &found[0];
             let out = trans::translate(spec, &f.sig, &f.body, &sigs).map_err(|e| match e {
                 trans::TErr::Unsupported(s) => format!("unsupported construct: {}", s),
-                trans::TErr::NeedMonad | trans::TErr::NeedWrap => "internal: no translation mode applies".to_string(),
+                trans::TErr::NeedMonad => "internal: no translation mode applies".to_string(),
             })?;
             Ok((out, f.line))
         })();
